@@ -81,6 +81,7 @@ def gen(rng, tier, run):
             case['fail'].append(bad)
         case['alpha'] = rng.choice([0.01, 0.05])
     case['slice'] = [rng.randrange(0, 4), rng.randrange(0, 7)]
+    case['order'] = rng.choice(['C', 'C', 'F'])
     if case['rep'] == 'full' and len(case.get('shape', [])) >= 2 and 1 in case['shape']:
         # the plot side of FullRepresenter raises for N-d datasets with unit axes (they are meant to be squeezed first);
         # outside the table / text rendering this property is about
@@ -150,8 +151,10 @@ def build(case):
         for ax, (n, knd) in enumerate(zip(shape, case['kinds'])):
             bins[f'b{ax}'] = (10.0 * ax + np.arange(n + 1, dtype=float)) if knd == 'e' else (10.0 * ax + np.arange(n, dtype=float) + 0.5)
         if shape:
-            return Dataset(np.array(vals, dtype=float).reshape(shape), np.array(errs, dtype=float).reshape(shape),
-                           bins=bins, name=name)
+            val, err = np.array(vals, dtype=float).reshape(shape), np.array(errs, dtype=float).reshape(shape)
+            if case.get('order') == 'F':         # same content, Fortran memory order
+                val, err = np.asfortranarray(val), np.asfortranarray(err)
+            return Dataset(val, err, bins=bins, name=name)
         return Dataset(np.float64(vals[0]), np.float64(errs[0]), name=name)
     ref_v = [i + 0.25 for i in range(size)]
     errs = [0.5] * size
@@ -221,8 +224,14 @@ def format_val(val, num_fmt='{:11.6g}'):
 def table_cells(tmpl):
     """formatted cells (rows) and highlight matrix (rows) of a TableTemplate, independently of RstTable"""
     import numpy as np
-    cols = [np.asarray(c).flatten() for c in tmpl.columns]      # as np.nditer sees them
-    hls = [np.asarray(h).flatten() for h in tmpl.highlights]
+    # rows by joint C-order indexing of all columns (the order in which RstTable writes them is the memory order of the
+    # arrays, which the property does not fix: see the comparison of sorted rows for Fortran-ordered datasets)
+    try:
+        cols = [np.asarray(c).flatten() for c in np.broadcast_arrays(*[np.asarray(c) for c in tmpl.columns])]
+        hls = [np.asarray(h).flatten() for h in np.broadcast_arrays(*[np.asarray(h) for h in tmpl.highlights])]
+    except ValueError:
+        cols = [np.asarray(c).flatten() for c in tmpl.columns]
+        hls = [np.asarray(h).flatten() for h in tmpl.highlights]
     nrows = cols[0].size
     rows = [[format_val(col[i]) for col in cols] for i in range(nrows)]
     hl = [[bool(h[i]) for h in hls] for i in range(min(nrows, min(h.size for h in hls)))]
@@ -346,6 +355,19 @@ def run_impl(case, run):
                 else:
                     outs.append(['plot'])
             out['renders'].append(outs)
+        # what a rendering returns belongs to the caller: text templates joined in place (TextTemplate.join) must not show in
+        # the next rendering
+        out['rerender_same'] = True
+        for verb in range(1, 6):
+            repn = rep.Representation(representer, verbosity=Verbosity(verb))
+            first = [t.text for t in repn(res) if isinstance(t, TextTemplate)]
+            got = repn(res)
+            for tmpl in got:
+                if isinstance(tmpl, TextTemplate):
+                    tmpl.join(TextTemplate('appended by the caller :hl:`KO`'))
+            second = [t.text for t in repn(res) if isinstance(t, TextTemplate)]
+            if first != second:
+                out['rerender_same'] = False
         # the report formatter itself (Rst.format_result), reused for a second result of the same test (same fingerprint)
         # with another outcome: what it writes does not depend on what it wrote before
         if case['rep'] in ('table', 'fulltable'):
@@ -436,7 +458,7 @@ def compare(case, impl, model):
     for entry, item in zip(impl['tables'], model['rst']):
         lines = '\n'.join(item['rst']['lines'])
         text = '.. role:: hl\n\n.. table::\n    :widths: auto\n\n' + lines + '\n'
-        if text != entry['text']:
+        if text != entry['text'] and (case.get('order') != 'F' or sorted(text.split('\n')) != sorted(entry['text'].split('\n'))):
             return f"reST text at verbosity {entry['verb']}: impl={entry['text']!r}"[:500] + f' model={text!r}'[:500]
         if 'slice' in entry:
             cols = [list(c) for c in zip(*entry['slice']['rows'])] if entry['slice']['rows'] else [[] for _ in entry['headers']]
@@ -471,6 +493,9 @@ def oracle(case, impl, run):
     fails = []
     verdict = impl['verdict']
     run.count('verdict=' + str(verdict))
+    if impl.get('rerender_same') is False:
+        fails.append(('history_independent', 'after the caller joined text to the templates of a first rendering, a second '
+                      'rendering of the same result is different'))
     for entry in impl.get('rst', []):
         if not entry['same']:
             fails.append(('history_independent', f"verbosity {entry['verb']}: Rst.format_result on an Rst object that formatted another "
@@ -512,6 +537,8 @@ def oracle(case, impl, run):
             safe = all(c.strip() and '\n' not in c for r in entry['rows'] for c in r)
             if not exp and got and len(got) == 1 and all(c == ['', False] for c in got[0]):
                 got = []        # a table without rows is written with one blank body line (reST cannot express an empty body)
+            if case.get('order') == 'F':
+                got, exp = sorted(got), sorted(exp)      # the rows of Fortran-ordered datasets are written in memory order
             if safe and got != exp:
                 bad = next((i for i, (a, b) in enumerate(zip(got, exp)) if a != b), min(len(got), len(exp)))
                 fails.append(('readback', f"verbosity {entry['verb']}: row {bad} of the written table reads back as "
